@@ -52,6 +52,23 @@ impl VM {
         }
     }
 
+    /// Canonical text of everything this VM retains between runs (verification harness only).
+    #[cfg(feature = "verif")]
+    pub fn verif_fingerprint(&self) -> String {
+        let r = |v: &Vec<Object>| -> String {
+            v.iter()
+                .map(|o| crate::verif::render(*o))
+                .collect::<Vec<_>>()
+                .join(",")
+        };
+        format!(
+            "stack=[{}] globals=[{}] frames={:?}",
+            r(&self.stack),
+            r(&self.globals),
+            self.frames
+        )
+    }
+
     /// Get a local variable (stored on the stack)
     /// The passed index is the relative position to the base pointer of the current callframe
     /// Performance: Skipping the bounds check here does not yield any significant performance improvement
@@ -106,6 +123,13 @@ impl VM {
     /// Performance: -25% over a regular call to `Vec::pop()`
     #[inline(always)]
     fn pop(&mut self) -> Object {
+        // verification harness: record a pop of the empty stack instead of executing it
+        #[cfg(feature = "verif")]
+        if self.stack.is_empty() {
+            crate::verif::breach("pop-empty", self.ip, String::new());
+            return Object::null();
+        }
+
         debug_assert!(!self.stack.is_empty());
 
         // Safety: if the compiler and VM are implemented correctly, the stack will never be empty
@@ -247,6 +271,18 @@ impl VM {
                 }
             }
 
+            // verification harness: budget, trace, fetch-contract probe and scheduler yield point
+            #[cfg(feature = "verif")]
+            if let Some(e) = crate::verif::step(
+                self.ip,
+                &self.instructions,
+                self.stack.len(),
+                self.bp,
+                self.frames.len(),
+            ) {
+                return Err(e);
+            }
+
             match self.next() {
                 OpCode::Const => {
                     let idx = self.read_u16();
@@ -344,6 +380,15 @@ impl VM {
                 }
                 OpCode::Call => {
                     let num_args = self.read_u8();
+                    #[cfg(feature = "verif")]
+                    if self.stack.len() < 1 + num_args as usize {
+                        crate::verif::breach(
+                            "call-underflow",
+                            self.ip,
+                            format!("len={} args={}", self.stack.len(), num_args),
+                        );
+                        continue;
+                    }
                     let base_pointer = self.stack.len() as u16 - 1 - num_args as u16;
                     let obj = self.pop();
                     if obj.tag() != Type::Function {
@@ -369,6 +414,11 @@ impl VM {
                         args.push(self.pop());
                     }
                     args.reverse();
+                    #[cfg(feature = "verif")]
+                    if builtin > Builtin::Length as u8 {
+                        crate::verif::breach("bad-builtin", self.ip, format!("byte={builtin}"));
+                        continue;
+                    }
                     let builtin = unsafe { std::mem::transmute::<u8, Builtin>(builtin) };
                     let result = builtins::call(builtin, &args, gc)?;
                     self.push(result);
